@@ -19,8 +19,9 @@ that construction and deep copy hand out a number > g0 (hence different from EVE
 serialNum <= GLOBAL_SERIAL_NUM.  (The pickle route and copyParamsFrom do not: contracts/pending/C16_copies_finding.py.)
 
 Trusted: copy.deepcopy of containers / arrays / plain objects (engine model A6: a class's own __deepcopy__ is executed,
-the memo is shared); pickle of plain data (engine model); what pickle does with a __reduce__ value (callable(*args), then
-__setstate__(state)) is spelt out in the lemma and compared with the real pickle module natively.
+the memo is shared); pickle (engine model A6: plain data; object graphs by the reduce protocol - __reduce__ / __getstate__
+at dumps, callable(*args) / cls.__new__, memo, then __setstate__ at loads); what pickle does with a __reduce__ value is ALSO
+spelt out in one lemma (both routes are proved) and everything is compared with the real pickle module natively.
 """
 import copy
 import pickle
@@ -155,15 +156,16 @@ def unpickle(pc):
 
 
 @lemma(gen=GEN)
-def unpickled_collection_is_equal_and_independent(g0: int, s0: int, a0: int, pw: float, f0: float, f1: float, n: float, d0: float, d1: float, hk: float, x: float):
-    """the pickle protocol of a collection (__reduce__ -> Owner.getParameterCollection() -> __setstate__): equal values
-    of every kind, no shared storage.  (Its serial number: contracts/pending/C16_copies_finding.py.)"""
+def unpickled_collection_is_equal_and_independent(g0: int, s0: int, a0: int, pw: float, f0: float, f1: float, n: float, d0: float, d1: float, hk: float, x: float, viaModule: bool):
+    """the pickle protocol of a collection (__reduce__ -> Owner.getParameterCollection() -> __setstate__), spelt out step
+    by step and through pickle.loads(pickle.dumps(...)): equal values of every kind, no shared storage.  (Its serial
+    number: contracts/pending/C16_copies_finding.py.)"""
     assume(s0 <= g0)
     defs = mk_class()
     pcmod.GLOBAL_SERIAL_NUM = g0
     pc = mk_coll(s0, a0, pw, [f0, f1], {"U235": n}, np.array([d0, d1]), None)
     pc._hist[("power", 3)] = hk
-    c = unpickle(pc)
+    c = pickle.loads(pickle.dumps(pc)) if viaModule else unpickle(pc)
     assert not same(c, pc) and isinstance(c, PCS)
     assert c.power == pw and len(c.mgFlux) == 2 and c.mgFlux[0] == f0 and c.mgFlux[1] == f1
     assert len(c.numberDensities) == 1 and c.numberDensities["U235"] == n
@@ -295,3 +297,40 @@ def copyParamsFrom_gives_equal_values_in_a_new_collection(g0: int, s0: int, s1: 
         assert b.p.mgFlux is None
     assert b.p.numberDensities["U235"] == n
     assert a.p.power == pw and a.p.mgFlux[0] == f0 and a.p.serialNum == s0, "other unchanged"
+
+
+@lemma(gen={"g0": (10, 1000), "k": (0, 2)})
+def unpickled_subtree_carries_equal_independent_values(g0: int, k: int, hasParent: bool, p0: float, p1: float, p2: float, f0: float, f1: float, f2: float,
+                                                       n0: float, n1: float, n2: float, x: float):
+    """pickle.loads(pickle.dumps(root)) of a composite with k = 0..2 children: every node of the clone has its own
+    collection of the same class with the values of its original, no mutable value is shared, later changes on either
+    side do not show on the other; the counter still covers every number in use.  (The serial numbers of the clone:
+    contracts/pending/C16_copies_finding.py.)"""
+    k = choose(k, 0, 2)
+    assume(g0 >= 10)
+    defs = mk_class()
+    pcmod.GLOBAL_SERIAL_NUM = g0
+    pws, fls, dens = [p0, p1, p2], [f0, f1, f2], [n0, n1, n2]
+    root, kids = mk_tree(k, hasParent, [0, 1, 2, 3], pws, fls, dens)
+    cp = pickle.loads(pickle.dumps(root))
+    orig = [root] + kids
+    new_ = [cp] + list(cp._children)
+    assert len(cp._children) == k and cp.parent is None
+    for i in range(k + 1):
+        o, c = orig[i], new_[i]
+        assert not same(c, o) and not same(c.p, o.p) and isinstance(c.p, PCS) and c.name == o.name, "its own collection"
+        assert c.p.power == pws[i] and len(c.p.mgFlux) == 2 and c.p.mgFlux[0] == fls[i] and c.p.numberDensities["U235"] == dens[i], "equal values"
+        assert not same(c.p.mgFlux, o.p.mgFlux) and not same(c.p.numberDensities, o.p.numberDensities), "no shared storage"
+        assert pcmod.GLOBAL_SERIAL_NUM >= c.p.serialNum and o.p.serialNum == i
+        if i > 0:
+            assert same(c.parent, cp)
+    assert pcmod.GLOBAL_SERIAL_NUM >= g0
+    for i in range(k + 1):
+        new_[i].p.mgFlux[0] = x
+        new_[i].p.numberDensities["U235"] = x
+        new_[i].p.power = x
+    for i in range(k + 1):
+        assert orig[i].p.power == pws[i] and orig[i].p.mgFlux[0] == fls[i] and orig[i].p.numberDensities["U235"] == dens[i], "the original does not see changes of the clone"
+        orig[i].p.mgFlux[1] = x + 1
+        orig[i].p.power = x + 1
+        assert new_[i].p.power == x and new_[i].p.mgFlux[1] == (2.0 if i == 0 else 3.0), "nor the clone changes of the original"
